@@ -8,6 +8,8 @@ bf_dist_correct) evaluated by vm_compute; in addition the mirror models `astar` 
 same graph with the recorded shuffles / tie-break draws and compared exactly (path, actions, value,
 visited) — a mirror difference that the certificate covers is drift, not a violation.
 """
+import glob
+import os
 import vlib
 from vlib import nat, natlist, zlit, zlist, blist, coqlist
 
@@ -68,7 +70,46 @@ def exact_dist(case, unit=False):
     return d
 
 
+def gen_big_graph(rng):
+    """larger / denser graphs whose A* queue fills with superseded nodes (many states re-reached more cheaply while
+    still queued): out-degree up to n-1, wide cost ranges.  `repush`: reaching j from i costs about |j-i|^p, so every
+    extra hop is cheaper and each expansion re-pushes most of the frontier; `dense`: random targets, costs 0..100."""
+    kind = rng.choice(["repush", "repush", "repush", "dense"])
+    if kind == "repush":
+        n = rng.randint(10, 22)
+        p_, noise = rng.choice([2, 2, 3]), rng.choice([2, 5, 5, 20])
+        maxdeg = rng.choice([n - 1, n - 1, 12, 8])
+        back = rng.random() < .5
+        order = rng.sample(range(n), n)                 # position along the line -> state index
+        succ = [[] for _ in range(n)]
+        for i in range(n):
+            js = [j for j in range(n) if j != i and (back or j > i)]
+            rng.shuffle(js)
+            js = js[:maxdeg]
+            for a, j in zip(rng.sample(range(max(len(js), 1) + 3), len(js)), js):
+                c = abs(j - i) ** p_ + rng.randint(0, noise) if j > i else rng.randint(0, 30)
+                succ[order[i]].append([a, order[j], c])
+        goal = [False] * n
+        goal[order[n - 1]] = True
+        if rng.random() < .3:
+            goal[order[rng.randrange(n // 2, n)]] = True
+        start = order[rng.choice([0, 0, 0, 1])]
+    else:
+        n = rng.randint(7, 16)
+        succ = []
+        for s in range(n):
+            deg = rng.randint(2, 8)
+            succ.append([[a, rng.randrange(n), rng.choice([0, 1, 2, 5, 10, 20, 50, 100, rng.randint(0, 100)])]
+                         for a in rng.sample(range(10), deg)])
+        goal = [False] * n
+        for g_ in rng.sample(range(n), rng.choice([1, 1, 2])):
+            goal[g_] = True
+        start = rng.randrange(n)
+    return n, succ, goal, start, kind
+
+
 def gen_case(rng, scenario=None):
+    big = rng.random() < .2
     n = rng.choice([1, 2, 3, 3, 4, 4, 5, 5, 6, 6, 7, 8, 9])
     shape = rng.choice(["random", "random", "forward", "ring"])
     costmode = rng.choice(["mixed", "mixed", "mixed", "unit", "zero", "zeroheavy", "large"])
@@ -109,7 +150,10 @@ def gen_case(rng, scenario=None):
     nongoal = [s for s in range(n) if not goal[s]]
     if goal[start] and nongoal and rng.random() < .8:
         start = rng.choice(nongoal)
-    case = {"n": n, "succ": succ, "goal": goal, "start": start}
+    family = "small"
+    if big:
+        n, succ, goal, start, family = gen_big_graph(rng)
+    case = {"n": n, "succ": succ, "goal": goal, "start": start, "family": family}
     # representation of the deterministic MDP
     r = rng.random()
     if r < .25:
@@ -121,7 +165,7 @@ def gen_case(rng, scenario=None):
         case["repr"] = rng.choice(kinds) + "/" + rng.choice(kinds)
     # heuristic (as a COST per state; msdm gets heuristic_value = -cost)
     d = exact_dist(case)
-    hk = rng.choice(["zero", "exact", "half", "exact", "half", "exact_inf"])
+    hk = rng.choice(["zero", "exact", "half", "exact", "half", "exact_inf"] + (["zero", "zero", "half"] if big else []))
     if hk == "zero":
         h = [0] * n
     elif hk == "exact":
@@ -207,6 +251,7 @@ def features(case):
             "shared_dists": case.get("shared_dists", False), "tabular_touched": case.get("tabular", False),
             "replan_same_planner": case.get("replan", False), "shared_planner_two_problems": case.get("shared_planner", False),
             "assert_monotone_off": not case.get("assert_monotone", True), "large_costs": any(c >= 10 ** 6 for row in case["succ"] for _, _, c in row),
+            "family_" + case.get("family", "small"): True, "out_degree_ge_8": any(len(row) >= 8 for row in case["succ"]),
             "seed_0": case.get("seed") == 0 or case.get("bfs_seed") == 0, "start_0": case["start"] == 0, "single_state": case["n"] == 1}
 
 
@@ -296,7 +341,7 @@ def run(ctx):
     impl = ctx.impl("c05_impl.py", {"cases": cases}, shards=8 if tier == "quick" else 16)["results"]
 
     # model of from_mdp: which representations of a single outcome can be read (theorems from_mdp_repr_*)
-    rd = ctx.coq(PRE, ["reads"], tag="reads")[0]
+    rd = ctx.coq(PRE, ["reads"], tag="reads_p%d" % os.getpid())[0]   # pid: concurrent checks share work/C05
     if isinstance(rd, vlib.CoqError) or len(rd) != 3:
         ctx.violation("C05:coq-evaluation-failed", {"case": None, "error": str(rd)[:800]}, found=False)
         model_reads = {"det": True, "dict": True, "uniform": True}
@@ -318,7 +363,7 @@ def run(ctx):
         if parent.get("scenario") == "two_wrappers":
             units.append((parent, parent["other"], res["other"]))
     n_nested_h = 0
-    branch = {"astar_runs_with_repush": 0, "astar_runs_with_stale_pop": 0, "astar_goal_popped": 0, "astar_fell_through": 0,
+    branch = {"astar_runs_with_10plus_repushes": 0, "astar_max_repushes_in_a_run": 0, "astar_runs_with_repush": 0, "astar_runs_with_stale_pop": 0, "astar_goal_popped": 0, "astar_fell_through": 0,
               "bfs_goal_popped": 0, "bfs_fell_through": 0}
     for i, (parent, case, res) in enumerate(units):
         for k, v in features(case).items():
@@ -329,6 +374,8 @@ def run(ctx):
             if "error" not in o:
                 branch[alg + ("_fell_through" if o["plan"] is None else "_goal_popped")] += 1
         branch["astar_runs_with_repush"] += res["astar"].get("repushes", 0) > 0
+        branch["astar_runs_with_10plus_repushes"] += res["astar"].get("repushes", 0) >= 10
+        branch["astar_max_repushes_in_a_run"] = max(branch["astar_max_repushes_in_a_run"], res["astar"].get("repushes", 0))
         branch["astar_runs_with_stale_pop"] += res["astar"].get("stale_pops", 0) > 0
         if "h_seen" in res["astar"]:
             # the nested searches' path values must be the exact relaxed costs-to-go (they are A* results themselves)
@@ -402,7 +449,7 @@ def run(ctx):
                     terms.append("mir_a %s %s %s %s" % (gt, coqlist(natlist(o) for o in out["shuffles"]), zlist(case["h"]), tb))
                 meta.append(("mir", i, alg))
 
-    vals = ctx.coq(PRE, terms, shard=40 if tier == "quick" else 150)
+    vals = ctx.coq(PRE, terms, shard=40 if tier == "quick" else 150, tag="cases_p%d" % os.getpid())
     nchk = nmir = drift = accepted = 0
     drift_samples = []
     for (kind, i, alg), v in zip(meta, vals):
@@ -445,12 +492,18 @@ def run(ctx):
                 drift += 1          # covered by the certificate (drift-cleared) unless the certificate failed too
                 if len(drift_samples) < 3:
                     drift_samples.append({"case": case, "algorithm": alg, "mirror": mv, "impl": out})
+    for f in glob.glob(os.path.join(ctx.workdir, "C05_*_p%d_*.v" % os.getpid())):     # per-process work files: do not pile up
+        try:
+            os.remove(f)
+        except OSError:
+            pass
     ctx.coverage.update({
         "evaluations": nchk + nmir,
         "distinct_nontrivial": len(distinct),
-        "rule": "graphs with 1..9 states, out-degree 0..3 with distinct action labels from 0..3 in random order, successors random / mostly-forward / ring "
+        "rule": "80%% small graphs: 1..9 states, out-degree 0..3 with distinct action labels from 0..3 in random order, successors random / mostly-forward / ring "
                 "(self-loops, back edges, cycles), integer costs 0..4 (modes mixed / unit / all-zero / zero-heavy), 0..3 goals (possibly with outgoing actions, "
-                "possibly unreachable, possibly the start), heuristic in {zero, exact, floor(exact/2), exact with +inf on dead states} (dead states otherwise %d), "
+                "possibly unreachable, possibly the start); 20%% big graphs (gen_big_graph): `repush` 10..22 states, out-degree up to n-1, cost ~ |j-i|^p + noise so that "
+                "most queued states are re-reached more cheaply at every expansion (superseded nodes outnumber live ones), or `dense` 7..16 states, out-degree 2..8, costs 0..100; heuristic in {zero, exact, floor(exact/2), exact with +inf on dead states} (dead states otherwise %d), "
                 "tie_breaking in {lifo,fifo,random}, seeds, randomize_action_order, MDP given as a DeterministicShortestPathProblem subclass (next_state) or a QuickMDP whose "
                 "initial/next-state distributions are DeterministicDistribution / single-entry DictDistribution / single-element UniformDistribution; every case is run "
                 "through AStarSearch and BreadthFirstSearch; scenarios: plain / two_wrappers (from_mdp wrappers of two different generated problems built first, then the older "
